@@ -19,8 +19,26 @@
        whose leaf was added by b ("cannot update an element that is not present in the accumulator"),
        and garbles anything else.
    v2 contract status is modelled because the formation/resolution code panics on unexpected
-   statuses; pending and rejected are not distinguished (RejectContracts is not modelled: the element
-   code treats both alike, and no element row ever belongs to such a contract).
+   statuses.  Pending ([SUnconfirmed]) and rejected ([SRejected]) are distinguished since WP-E2:
+     host/contracts/update.go      UpdateChainState, per applied block: "if index.Height >= cm.rejectBuffer
+                                   { tx.RejectContracts(index.Height - cm.rejectBuffer) }"
+     persist/sqlite/consensus.go   RejectContracts / rejectV2Contracts: rows WHERE contract_status <> rejected
+                                   AND confirmation_index IS NULL AND negotiation_height < $height become rejected
+   confirmation_index is written only by applyV2ContractFormation (set, together with status active,
+   and only when the status is pending or rejected) and by revertV2ContractFormation (NULL, together
+   with status pending): it is NULL exactly when the status is pending or rejected, so the selection
+   of rejectV2Contracts is "pending and negotiated before the height" and the panic branch of
+   RejectContracts ("unexpected contract status") cannot be reached; the column is not modelled.
+   negotiation_height (cm.chain.Tip().Height when AddV2Contract / RenewV2Contract ran) is carried by
+   the operation; the reject buffer is the manager's option (default 18, contracts.WithRejectAfter).
+
+   Several changes of one contract in one block: consensus merges every transaction of a block that
+   touches a v2 contract into ONE V2FileContractElementDiff; a revision and a resolution of the same
+   contract (in practice: a renewal; core/consensus validateV2FileContracts) give a diff with Revision
+   AND Resolution set, whose element is the contract BEFORE the block.  buildContractState (since
+   d7434ff: `case rev != nil: ...; fallthrough; case res != nil:`) records such a diff in RevisedV2 and
+   in one of SuccessfulV2/RenewedV2/FailedV2: two events of one contract, [ERevised c old new] and
+   [EResolved c k], which Apply/RevertContracts meet in the order of [grouped].
 
    Which rows the per-block refresh touches is explicit: [selection] is a predicate on the columns of
    the contracts_v2 row an element belongs to (contract_status — confirmation_index/resolution_index
@@ -39,10 +57,10 @@ Definition idx_eqb (a b : idx) : bool := ((ih a =? ih b) && (ib a =? ib b))%N.
 Definition oidx_eqb := option_eqb idx_eqb.
 
 (** * Rows *)
-Inductive cstatus := SUnconfirmed | SActive | SSuccessful | SRenewed | SFailed.
+Inductive cstatus := SUnconfirmed (* pending *) | SRejected | SActive | SSuccessful | SRenewed | SFailed.
 Definition cstatus_eqb (a b : cstatus) : bool :=
   match a, b with
-  | SUnconfirmed, SUnconfirmed | SActive, SActive | SSuccessful, SSuccessful
+  | SUnconfirmed, SUnconfirmed | SRejected, SRejected | SActive, SActive | SSuccessful, SSuccessful
   | SRenewed, SRenewed | SFailed, SFailed => true
   | _, _ => false
   end.
@@ -56,11 +74,15 @@ Record ielem := { ie_idx : idx; ie_basis : option idx }.
 Record state := {
   contracts : list (N * cstatus);   (* contracts_v2: contract id -> status *)
   renewed : list (N * N);           (* contracts_v2.renewed_to: contract -> the renewal negotiated for it *)
+  negs : list (N * N);              (* contracts_v2.negotiation_height *)
+  rbuf : N;                         (* contracts.Manager.rejectBuffer *)
   celems : list celem;              (* keyed by contract *)
   ielems : list ielem;              (* keyed by block id *)
   tip : option idx                  (* last_scanned_index *)
 }.
-Definition init : state := {| contracts := []; renewed := []; celems := []; ielems := []; tip := None |}.
+Definition defaultRejectBuffer : N := 18.     (* host/contracts/manager.go NewManager *)
+Definition init : state :=
+  {| contracts := []; renewed := []; negs := []; rbuf := defaultRejectBuffer; celems := []; ielems := []; tip := None |}.
 
 (** * Blocks as the contract manager sees them *)
 Inductive rkind := KSuccessful | KRenewed | KFailed.
@@ -155,7 +177,7 @@ Definition known (s : state) (c : N) : bool :=
   match alookup c (contracts s) with Some _ => true | None => false end.
 
 Definition set_c (s : state) (cs : list (N * cstatus)) (ce : list celem) : state :=
-  {| contracts := cs; renewed := renewed s; celems := ce; ielems := ielems s; tip := tip s |}.
+  {| contracts := cs; renewed := renewed s; negs := negs s; rbuf := rbuf s; celems := ce; ielems := ielems s; tip := tip s |}.
 
 Definition kstatus (k : rkind) : cstatus :=
   match k with KSuccessful => SSuccessful | KRenewed => SRenewed | KFailed => SFailed end.
@@ -173,7 +195,7 @@ Definition apply_event (b : block) (s : state) (e : event) : res state :=
              the block being applied, also on a rescan *)
           let ce := cset c {| ce_cid := c; ce_basis := Some (b_idx b); ce_born := b_idx b; ce_rev := rev |} (celems s) in
           match st with
-          | SUnconfirmed => Ok (set_c s (aset c SActive (contracts s)) ce)
+          | SUnconfirmed | SRejected => Ok (set_c s (aset c SActive (contracts s)) ce)
           | _ => Ok (set_c s (contracts s) ce)       (* "skipping rescan state transition" *)
           end
       end
@@ -240,10 +262,20 @@ Definition revert_block_g (sel : selection) (s : state) (b : block) : res state 
   let ie := filter (fun e => negb (idx_eqb (ie_idx e) (b_idx b))) (ielems s1) in (* RevertContractChainIndexElement *)
   do ie' <- iupd_revert b ie;                                                    (* UpdateChainIndexElementProofs(cru) *)
   do ce' <- crefresh_revert sel (contracts s1) (renewed s1) b (celems s1);       (* UpdateContractElementProofs(cru) *)
-  Ok {| contracts := contracts s1; renewed := renewed s1; celems := ce'; ielems := ie'; tip := tip s1 |}.
+  Ok {| contracts := contracts s1; renewed := renewed s1; negs := negs s1; rbuf := rbuf s1; celems := ce'; ielems := ie'; tip := tip s1 |}.
 
 Definition iset (e : ielem) (l : list ielem) : list ielem :=     (* INSERT .. ON CONFLICT (id) DO UPDATE *)
   e :: filter (fun x => negb (ib (ie_idx x) =? ib (ie_idx e))%N) l.
+
+(* RejectContracts(index.Height - rejectBuffer), run when index.Height >= rejectBuffer: every pending
+   row negotiated before that height becomes rejected (see the header for confirmation_index) *)
+Definition rej1 (rb h : N) (ng : list (N * N)) (p : N * cstatus) : N * cstatus :=
+  match snd p, alookup (fst p) ng with
+  | SUnconfirmed, Some g => if (g <? h - rb)%N then (fst p, SRejected) else p
+  | _, _ => p
+  end.
+Definition reject_rows (rb h : N) (ng : list (N * N)) (cs : list (N * cstatus)) : list (N * cstatus) :=
+  if (rb <=? h)%N then map (rej1 rb h ng) cs else cs.
 
 Definition apply_block_g (sel : selection) (s : state) (b : block) : res state :=
   do s1 <- fold_res (apply_event b) (grouped (b_events b)) s;                   (* ApplyContracts *)
@@ -251,9 +283,10 @@ Definition apply_block_g (sel : selection) (s : state) (b : block) : res state :
   let ce := crefresh_apply sel (contracts s1) (renewed s1) b (celems s1) in      (* UpdateContractElementProofs(cau) *)
   let ie := iset {| ie_idx := b_idx b; ie_basis := Some (b_idx b) |} ie in       (* AddContractChainIndexElement *)
   let h := ih (b_idx b) in
+  let cs := reject_rows (rbuf s1) h (negs s1) (contracts s1) in                  (* RejectContracts *)
   let ie := if (chainIndexBuffer <? h)%N                                         (* DeleteExpiredChainIndexElements *)
             then filter (fun e => negb (ih (ie_idx e) <=? h - chainIndexBuffer)%N) ie else ie in
-  Ok {| contracts := contracts s1; renewed := renewed s1; celems := ce; ielems := ie; tip := tip s1 |}.
+  Ok {| contracts := cs; renewed := renewed s1; negs := negs s1; rbuf := rbuf s1; celems := ce; ielems := ie; tip := tip s1 |}.
 
 Definition last_idx (rs bs : list block) (d : option idx) : option idx :=
   match rev bs with
@@ -268,8 +301,8 @@ Definition batch_g (sel : selection) (s : state) (rs bs : list block) : res stat
   | _, _ =>
       do s1 <- fold_res (revert_block_g sel) rs s;
       do s2 <- fold_res (apply_block_g sel) bs s1;
-      Ok {| contracts := contracts s2; renewed := renewed s2; celems := celems s2; ielems := ielems s2;
-            tip := last_idx rs bs (tip s2) |}
+      Ok {| contracts := contracts s2; renewed := renewed s2; negs := negs s2; rbuf := rbuf s2;
+            celems := celems s2; ielems := ielems s2; tip := last_idx rs bs (tip s2) |}
   end.
 
 (* the code: every row is refreshed *)
@@ -277,14 +310,16 @@ Definition revert_block : state -> block -> res state := revert_block_g sel_all.
 Definition apply_block : state -> block -> res state := apply_block_g sel_all.
 Definition batch : state -> list block -> list block -> res state := batch_g sel_all.
 
-(* ResetChainState: both element tables are emptied, the contracts keep their status and renewed_to *)
+(* ResetChainState: both element tables are emptied, the contracts keep their status, renewed_to and
+   negotiation height *)
 Definition reset (s : state) : state :=
-  {| contracts := contracts s; renewed := renewed s; celems := []; ielems := []; tip := None |}.
+  {| contracts := contracts s; renewed := renewed s; negs := negs s; rbuf := rbuf s; celems := []; ielems := []; tip := None |}.
 
 (** * Operations and observations *)
 Inductive op :=
-| AddContract (c : N)                 (* contracts.Manager.AddV2Contract: a pending contract row *)
-| Renew (c r : N)                     (* contracts.Manager.RenewV2Contract at RPC time: pending row r, renewed_to of c := r *)
+| Configure (rb : N)                  (* contracts.NewManager(.., contracts.WithRejectAfter(rb)) *)
+| AddContract (c ng : N)              (* contracts.Manager.AddV2Contract: a pending contract row negotiated at height ng *)
+| Renew (c r ng : N)                  (* contracts.Manager.RenewV2Contract at RPC time: pending row r, renewed_to of c := r *)
 | Batch (rs bs : list block)
 | Reset
 | Observe.
@@ -298,8 +333,9 @@ Inductive obs :=
 | OSkip
   (* contract elements (contract, proof valid at the processed tip, confirmed revision) sorted by contract;
      chain index elements (index, proof valid at the processed tip) sorted by height; processed tip;
-     renewed_to column (contract, renewal) sorted by contract *)
-| OState (ce : list (N * bool * N)) (ie : list (idx * bool)) (t : option idx) (rn : list (N * N)).
+     renewed_to column (contract, renewal) sorted by contract; contract_status column sorted by contract *)
+| OState (ce : list (N * bool * N)) (ie : list (idx * bool)) (t : option idx) (rn : list (N * N))
+         (st : list (N * cstatus)).
 
 Definition valid_at (t : option idx) (basis : option idx) : bool :=
   match t, basis with Some a, Some b => idx_eqb a b | _, _ => false end.
@@ -313,27 +349,33 @@ Definition observe (s : state) : obs :=
   OState (map (fun e => (ce_cid e, valid_at (tip s) (ce_basis e), ce_rev e)) (sortk ce_cid (celems s)))
          (map (fun e => (ie_idx e, valid_at (tip s) (ie_basis e))) (sortk (fun e => ih (ie_idx e)) (ielems s)))
          (tip s)
-         (sortk fst (renewed s)).
+         (sortk fst (renewed s))
+         (sortk fst (contracts s)).
 
 (* RenewV2Contract: Store.V2Contract(existing) must find the row; insertV2Contract fails on a known
    contract id (UNIQUE); then UPDATE contracts_v2 SET renewed_to — whatever the status of the
    existing contract, and with no effect on the element tables or the tip.  The manager's content
    checks (file size, capacity and Merkle root of the new contract equal the existing one's) are not
    modelled: the op carries ids only, the harness negotiates well-formed renewals. *)
-Definition renew (s : state) (c r : N) : option state :=
+Definition renew (s : state) (c r ng : N) : option state :=
   if known s c && negb (known s r)
   then Some {| contracts := aset r SUnconfirmed (contracts s); renewed := aset c r (renewed s);
+               negs := aset r ng (negs s); rbuf := rbuf s;
                celems := celems s; ielems := ielems s; tip := tip s |}
   else None.
 
 Definition step_g (sel : selection) (s : state) (o : op) : state * obs :=
   match o with
-  | AddContract c =>
+  | Configure rb =>
+      ({| contracts := contracts s; renewed := renewed s; negs := negs s; rbuf := rb; celems := celems s;
+          ielems := ielems s; tip := tip s |}, ODone COk)
+  | AddContract c ng =>
       if known s c then (s, ODone CErr)
-      else ({| contracts := aset c SUnconfirmed (contracts s); renewed := renewed s; celems := celems s;
+      else ({| contracts := aset c SUnconfirmed (contracts s); renewed := renewed s;
+               negs := aset c ng (negs s); rbuf := rbuf s; celems := celems s;
                ielems := ielems s; tip := tip s |}, ODone COk)
-  | Renew c r =>
-      match renew s c r with Some s' => (s', ODone COk) | None => (s, ODone CErr) end
+  | Renew c r ng =>
+      match renew s c r ng with Some s' => (s', ODone COk) | None => (s, ODone CErr) end
   | Batch rs bs =>
       match batch_g sel s rs bs with
       | Ok s' => (s', ODone COk)
@@ -349,13 +391,15 @@ Definition ce_eqb (a b : N * bool * N) : bool :=
   let '(c, v, r) := a in let '(c', v', r') := b in ((c =? c') && Bool.eqb v v' && (r =? r'))%N.
 Definition ie_eqb (a b : idx * bool) : bool := idx_eqb (fst a) (fst b) && Bool.eqb (snd a) (snd b).
 Definition rn_eqb (a b : N * N) : bool := ((fst a =? fst b) && (snd a =? snd b))%N.
+Definition st_eqb (a b : N * cstatus) : bool := (fst a =? fst b)%N && cstatus_eqb (snd a) (snd b).
 
 Definition obs_eqb (model seen : obs) : bool :=
   match model, seen with
   | _, OSkip => true
   | ODone a, ODone b => cls_eqb a b
-  | OState ce ie t rn, OState ce' ie' t' rn' =>
-      list_eqb ce_eqb ce ce' && list_eqb ie_eqb ie ie' && oidx_eqb t t' && list_eqb rn_eqb rn rn'
+  | OState ce ie t rn st, OState ce' ie' t' rn' st' =>
+      list_eqb ce_eqb ce ce' && list_eqb ie_eqb ie ie' && oidx_eqb t t' && list_eqb rn_eqb rn rn' &&
+      list_eqb st_eqb st st'
   | _, _ => false
   end.
 
